@@ -32,7 +32,7 @@ def check_ctor(chk, env, kind, name, n, extra, exp, key, rule="C11.K"):
 
 def run(chk):
     cfgs = ["dbg"] if chk.tier == "quick" else ["dbg", "rel"]
-    nmax = 8 if chk.tier == "quick" else 12
+    nmax = 10 if chk.tier == "quick" else 12
     chk.trust("rustc MIR construction and constant evaluation; std summaries (analysis/stdmodel.py); specs (analysis/specs.py)")
     chk.assume("n above %d follows the same code path (loops unrolled per n)" % nmax)
     for cfg in cfgs:
